@@ -1120,6 +1120,7 @@ class RoutingRig(SR.SchedRig):
             self.child.control_cb(rpc.CONTROL_PUBSUB, {
                 'cmd': 'register_raptor_queue',
                 'arg': {'name': act[1], 'queue': act[1], 'addr': 'tcp://none'}})
+            self.rlog('SRegDone', queue=act[1], after=self.cached())
         elif act[0] == 'unregister':
             self.unregistered.add(act[1])
             self.rlog('SUnreg', queue=act[1])
@@ -1226,14 +1227,39 @@ class GEvent(object):
     def __init__(self, rig):
         self.rig, self.flag = rig, True
 
-    def set(self)   : self.flag = True
-    def clear(self) : self.flag = False
-    def is_set(self): return self.flag
+    def _point(self, name):
+        # fine mode: every operation on the event is a schedule point
+        ctl = self.rig.ctl
+        if self.rig.fine and ctl is not None and ctl.current():
+            ctl.point(name)
+
+    def set(self):
+        self._point('evt.set')
+        self.flag = True
+
+    def clear(self):
+        self._point('evt.clear')
+        self.flag = False
+
+    def is_set(self):
+        self._point('evt.is_set')
+        return self.flag
 
     def wait(self, timeout=None):
         self.rig.log('Poll')
         self.rig.ctl.point('evt', wants=Gate(lambda: not self.flag))
         return self.flag
+
+
+class PointList(list):
+    '''the rank map of _Resources: counting the free ranks is a schedule point'''
+    rig = None
+
+    def count(self, x):
+        ctl = self.rig.ctl
+        if self.rig.fine and ctl is not None and ctl.current():
+            ctl.point('count')
+        return list.count(self, x)
 
 
 class MpiGetter(object):
@@ -1293,9 +1319,16 @@ class MPIRig(RaptorRig):
        queues (messages are deep-copied) whose get_nowait is the schedule point;
        the master side is the real Master._result_cb'''
 
-    def __init__(self, reqs, script=None, seed=0, nranks=3, max_ops=3000):
-        '''script: ('submit', uid) ('T',) ('K', k) ('U', uid, k) ('result', uid)'''
+    def __init__(self, reqs, script=None, seed=0, nranks=3, max_ops=3000, fine=False,
+                 chooser=None):
+        '''script: ('submit', uid) ('T',) ('K', k) ('U', uid, k) | ('U',) ('result', uid)
+           fine  : _Resources._alloc / _dealloc step by step - schedule points at
+                   the resource lock, the count of free ranks and every operation
+                   on the resource event (is_set / clear / wait / set)
+           chooser: takes over once the script is used up (exploration)'''
         self.reqs, self.nranks = reqs, nranks
+        self.fine, self.ext, self.waiting = bool(fine), chooser, 'none'
+        self.taken = []
         self.rng     = random.Random(seed)
         self.script  = list(script) if script is not None else None
         self.max_ops = max_ops
@@ -1315,16 +1348,27 @@ class MPIRig(RaptorRig):
         self.base._log = log
         self.res  = wm._Resources(log, rpshim.NullLog(), nranks)
         self.res._res_evt = GEvent(self)
+        pl = PointList(self.res._resources['cores'])
+        pl.rig = self
+        self.res._resources['cores'] = pl
         real_alloc, real_dealloc, rig = self.res._alloc, self.res._dealloc, self
 
         def _alloc(task):
             ranks = real_alloc(task)
+            rig.waiting = 'none'
             rig.log('Alloc', uid=task['uid'], sc=list(ranks), sg=[])
             return ranks
 
         def _dealloc(task):
-            real_dealloc(task)
+            # (fine mode: other threads log while this one is between freeing the
+            # ranks and the end of _dealloc; the release is one event, at its end)
+            rig.in_dealloc = list(task['ranks'])
+            try:
+                real_dealloc(task)
+            finally:
+                rig.in_dealloc = []
             rig.log('Dealloc', uid=task['uid'])
+        self.in_dealloc = []
         self.res._alloc, self.res._dealloc = _alloc, _dealloc
 
         self.puller = wm._TaskPuller('wtq', 'wrq', 'rtq', mock.Mock(), self.res, log,
@@ -1349,7 +1393,8 @@ class MPIRig(RaptorRig):
     def log(self, ev, **kw):
         e = {'ev': ev}
         e.update(kw)
-        e['cores'] = [int(x) for x in self.res._resources['cores']]
+        e['cores'] = [1 if i in self.in_dealloc else int(x)
+                      for i, x in enumerate(self.res._resources['cores'])]
         e['gpus']  = [0, 0]
         e['npool'] = 0
         self.events.append(e)
@@ -1365,6 +1410,7 @@ class MPIRig(RaptorRig):
         if channel == 'raptor_tasks':
             t = self.tq.pop(0)
             self.log('Take', uid=t['uid'])
+            self.waiting = t['uid']
             return [t]
         if channel == 'rank_tasks':
             return [self.rankq[int(qname)].pop(0)]
@@ -1387,6 +1433,8 @@ class MPIRig(RaptorRig):
                 self.rresq.append(t)
                 self.log('RankDone', uid=t['uid'], rank=int(t['rank']), ec=str(t.get('exit_code')))
             elif channel == 'raptor_results':
+                if self.waiting == t['uid']:
+                    self.waiting = 'none'
                 self._on_res_put([t])
 
     # schedule ---------------------------------------------------------------------
@@ -1427,12 +1475,16 @@ class MPIRig(RaptorRig):
                     # an environment action may enable a thread which `en` lacks
                     en = ctl.enabled()
                 elif name in en:
-                    if name == 'U':
+                    if name == 'U' and len(op) > 2:
                         self.upick = (op[1], int(op[2]))
                     return name
             for op in self.env_ops():
                 self.env_apply(op)
             en = ctl.enabled()
+            if self.ext is not None and en:
+                c = self.ext(en, ctl)
+                self.taken.append(c)
+                return c
             return en[0] if en else None
         while True:
             opts = list(ctl.enabled()) + self.env_ops()
@@ -1468,6 +1520,8 @@ class MPIRig(RaptorRig):
         fake_time.time  = lambda: 0.0
         MpiGetter.rig = self
         self.ctl = ctl = Ctl(self.choose, max_steps=self.max_ops + 100)
+        if self.fine:
+            self.res._res_lock = SC.CLock(ctl, 'res')
         self.penv.enter()
         try:
             with mock.patch.object(wm, 'time', fake_time), \
@@ -1488,7 +1542,7 @@ class MPIRig(RaptorRig):
         finally:
             self.ctl = None
             self.penv.leave()
-        self.log('End', stuck=False, wdead=False,
+        self.log('End', stuck=False, wdead=False, waiting=self.waiting,
                  pending=len(self.tq) + len(self.rresq) + len(self.mresq) + len(self.unsub)
                          + sum(len(q) for q in self.rankq.values()))
         return {'family': 'mpi', 'uids': sorted(self.reqs), 'reqs': self.reqs,
